@@ -109,6 +109,7 @@ type FuncVC struct {
 	axioms      []string
 	lemmaName   string
 	tablesUsed  map[string]bool
+	inFinish    bool
 }
 
 type deferred struct {
@@ -160,6 +161,10 @@ func (fv *FuncVC) freshConst(prefix, sort string) Term {
 
 func (fv *FuncVC) assume(t Term) {
 	if t.S == "true" {
+		return
+	}
+	if fv.inFinish {
+		fv.axioms = append(fv.axioms, t.S)
 		return
 	}
 	fv.asserts = append(fv.asserts, t.S)
